@@ -17,7 +17,7 @@ CHECKS = {
             'numprocesses the daemon reports within <=3 periodic checks, completed restarts/reloads (completion '
             'read from the reply or the event channel) must leave only fresh workers, then three idle checks '
             'must leave the ledger untouched. '
-            'Held-on-observed, not a proof: the quantifier over all histories is sampled.',
+            'Held-on-observed, not a proof: the quantifier over all histories is sampled. Histories that end with the exclusive slot taken while nothing is scheduled any more are judged too (no request is in flight in any sense).',
             'Trusts the simulated kernel (calibrated against real psutil/subprocess) and the hand-driven '
             'periodic check; on-demand, respawn=False and max_age>0 are outside the statement.'),
     'C02': ('SIM+LIVE', 'fault_enumeration',
@@ -29,7 +29,7 @@ CHECKS = {
             'not spawn for the stopped watcher; a third of the watchers carry refusing / failing stop, signal and '
             'reap hooks, a past of stop/start cycles or max_age replacements, wall-clock steps inside the stop '
             'sequence; real circusd histories judge the same on /proc. Complete over the '
-            'boundaries of each sampled base history; base histories are sampled.',
+            'boundaries of each sampled base history; base histories are sampled. LIVE histories carry an on-demand watcher that is idle (stream or datagram socket: never started) or contacted (a stop inside its socket-triggered start-up); SIM histories also send the operation while a non-waiting restart/reload of the same watcher is still spawning.',
             'Trusts the simulated kernel model (calibrated) and that deaths can only land at kernel-call '
             'boundaries of the single-threaded daemon; a stop that never completes is a violation here too.'),
     'C03': ('SIM+LIVE', 'exploration',
@@ -41,7 +41,7 @@ CHECKS = {
             'boundary; quick samples the grid, thorough enumerates it with several variants per cell; plus real '
             'circusd histories under strace judged by the same rules on the kernel time stamps; wall-clock steps '
             'inside the grace period; five restarts in a row with generations that change behaviour; a quarter '
-            'of the shards run with DEBUG set in the daemon environment.',
+            'of the shards run with DEBUG set in the daemon environment. Workers that fork one more helper in answer to the stop signal, and grandchildren: the final SIGKILL reaches every running descendant.',
             'Virtual time is exact, so lateness is measured in polling steps; one polling step of slack is granted '
             'as the statement does; before_signal vetoes belong to C14.'),
     'C04': ('SIM+LIVE', 'fault_enumeration',
@@ -58,7 +58,7 @@ CHECKS = {
             'An online checker consumes every published event; at quiescent points its believed-alive set must '
             'equal the kernel live set, every kernel spawn has exactly one spawn event, no pid is reaped twice, and '
             'self/outside deaths carry the exact exit_code; histories include signal hooks that veto, relayed '
-            'non-fatal signals (plain and recursive); plus real circusd histories with a real SUB socket.',
+            'non-fatal signals (plain and recursive); plus real circusd histories with a real SUB socket. send_hup watchers (a graceful reload kills nobody); a worker already dead when the daemon first announces its termination owes a reap event.',
             'The SIM PUB socket records every message (no transport loss); the exit_code clause is not judged for '
             'a worker whose kill event was already published or that the daemon signalled at the instant of death.'),
     'C05': ('SIM+LIVE', 'exploration',
@@ -70,7 +70,7 @@ CHECKS = {
             'B(op); watchers with captured output and helper children (real pipes that stay open while a holder '
             'lives: a read on an empty held pipe is a stall), wall-clock steps at kernel-call boundaries, long '
             'histories of one repeated operation, n stubborn workers killed in parallel; real circusd histories '
-            'with a second client probing every 100 ms (incl. an idle on-demand watcher).',
+            'with a second client probing every 100 ms (incl. an idle on-demand watcher). A deterministic bad-release sub-plan (every later generation exits during its warm-up) and a LIVE case with an event subscriber that never reads while thousands of events are published.',
             'Virtual time: a wait that cannot end is decidable because nothing else can run; hooks never sleep here.'),
     'C10': ('SIM', 'exploration',
             'runtime monitoring: second request injected at every selector poll of the first; differential no-effect '
@@ -80,14 +80,14 @@ CHECKS = {
             'ledger equal to the run without B), single exclusive operation in flight (also: no entry accepted while '
             'work started by an ended operation still runs), slot freed after every ending, incl. a reloadconfig '
             'that found the [circus] section edited, a periodic check of an arbiter without watchers, the same '
-            'operation repeated after 30 s .. 1 h of virtual time, and requests sent as casts.',
+            'operation repeated after 30 s .. 1 h of virtual time, and requests sent as casts. Requests after a stop that failed half-way (stream close fails), requests arriving while the periodic check starts an on-demand watcher (real listening socket inside the simulated world), captured watchers whose helper holds the pipes.',
             'Whether A is in flight is sampled when handle_message is entered for B; arbiter-wide restart is LIVE-only.'),
     'C11': ('SIM', 'exploration',
             'runtime monitoring: protocol snapshot + kernel ledger before/after every request answered with an error, '
             'requests generated by labelled corruption operators',
             'Valid requests of every command, left intact or corrupted in one or two fields, in several daemon states '
             '(incl. an operation in flight and one-shot signal-hook vetoes); an error reply '
-            'must leave snapshot (watchers, options, statuses, pids, stats keys, hooks) and kernel ledger unchanged.',
+            'must leave snapshot (watchers, options, statuses, pids, stats keys, hooks) and kernel ledger unchanged. Requests whose properties member is not an object; add with the hooks option; a seed-independent endpoint-owner core.',
             'Only synchronous error replies are judged; ok replies are not this property.'),
     'C14': ('SIM', 'fault_enumeration',
             'runtime monitoring with exhaustive enumeration of hook outcomes: scripted hooks that count their own '
@@ -95,15 +95,15 @@ CHECKS = {
             'All 1296 outcome/ignore assignments of the four start-phase hooks x obedient/stubborn worker x '
             'numprocesses 1/2, all 36 (before_stop, after_stop) assignments x stop/restart/rm/quit, all 36 '
             '(before_signal, after_signal) assignments x six signalling requests; gating, end state, SIGKILL '
-            'exemption and the call<->event bijection are checked on every run. Exhaustive over the stated space.',
+            'exemption and the call<->event bijection are checked on every run. Exhaustive over the stated space. numprocesses 0; real-time signal numbers as relayed signal and as stop signal.',
             'A raising before_signal without ignore flag is ambiguous and only recorded.'),
-    'C15': ('SIM', 'exploration',
+    'C15': ('SIM+LIVE', 'exploration',
             'runtime monitoring: online reference dict of watcher names updated from the replies, compared with '
             'list/status/stats/numwatchers after every step; real config file for reloadconfig',
             'Random add/rm/start/stop/reloadconfig/status/list sequences over a name pool with case variants, empty '
             'and unusual names; every view must equal the reference, names unique ignoring case, other-case requests '
             'reach the watcher, removed watchers vanish with their workers, add ok implies presence; views are also '
-            'compared with each other in the middle of rm / stop operations and after add+start whose spawns fail.',
+            'compared with each other in the middle of rm / stop operations and after add+start whose spawns fail. LIVE: rm with nostop while the workers keep writing to the output the daemon captured for them.',
             'Glob characters in names are addressed with match=simple; config files never define case-colliding names.'),
     'C18': ('SIM', 'exploration',
             'runtime monitoring: kernel signal ledger (target pid, number) vs watcher membership and descendants at '
@@ -113,19 +113,19 @@ CHECKS = {
             'active/stopped/stopping watchers; every designation of every signal name/number through signal, kill, '
             'set, add and config; clear-invalid near misses must be refused without a signal; kill requests are '
             'judged for the complete addressed set (workers and, with stop_children, their children) while a child '
-            'vanishes mid-loop.',
+            'vanishes mid-loop. shell = True watchers with os.killpg modelled in the simulated kernel; stop_signal by name in the options of set and add.',
             'Floats, booleans, signed/non-ASCII numeric strings, whitespace and out-of-range numbers are ambiguous '
             'and never decide.'),
-    'C19': ('SIM', 'exploration',
+    'C19': ('SIM+LIVE', 'exploration',
             'runtime monitoring: kernel spawn ledger with exact virtual timestamps checked for non-interleaving, '
             'priority order and warmup pacing',
             'Random watcher sets with priority ties, numprocesses 0-3, warmups and autostart flags; daemon start, '
             'start/restart of all, by glob and by regex; deaths injected during the sequence; starts that fail '
             'half-way (hook refusing the n-th spawn, after_start false); restart/start requests fired at a '
             'periodic check that is respawning the watcher; watchers removed/added at run time before the group '
-            'operation; 130-process watchers; wall-clock steps during the sequence.',
+            'operation; 130-process watchers; wall-clock steps during the sequence. LIVE: the daemon start of a real circusd (its own loop): autostart = False watchers stay stopped, negative priorities come last, priority order judged where the earlier watcher pauses 1 s per spawn.',
             'Virtual clock; spawn cost is modelled by hooks that consume virtual time.'),
-    'C12': ('SIM', 'exploration',
+    'C12': ('SIM+LIVE', 'exploration',
             'runtime monitoring: differential comparison of the reloaded daemon with a fresh simulated daemon started '
             'on the same file; pid continuity and kernel-activity oracles',
             'Chains of configuration versions produced by labelled edits (add/remove watcher, numprocesses incl. '
@@ -133,7 +133,7 @@ CHECKS = {
             'reloadconfig the protocol view must equal a fresh start, untouched watchers keep their pids, '
             'numprocesses-only edits move only the difference (also when a worker was SIGKILLed just before the '
             'request), unchanged files cause no kernel activity; stream options, mixed-case names and env values '
-            'with $VAR references are in the edit alphabet.',
+            'with $VAR references are in the edit alphabet. LIVE: reloadconfig on a real circusd started with --log-level / --log-output (unchanged file, then an edited and an added watcher).',
             'What a file means is taken from get_config (C16 checks that against the documentation).'),
     'C13': ('REF+SIM', 'exploration',
             'runtime monitoring: Process.format_args vs an independent argv model on enumerated token sequences; '
@@ -143,7 +143,7 @@ CHECKS = {
             'death/incr/decr/kill/reload histories is compared with the model for the configuration in force when it '
             'was made (run-time set of env/cmd/args/working_dir opens a new epoch; env=None means the daemon\'s '
             'environment), live wids must be distinct positive integers starting at 1 after every step, and workers '
-            'of a daemon built from a generated file get the environment the reference reader computes.',
+            'of a daemon built from a generated file get the environment the reference reader computes. Literal text beginning like the deprecated $WID placeholder.',
             'Unknown names come from a reserved pool; env names never collide ignoring case; the model splitter is '
             'cross-checked against shlex on every input.'),
     'C16': ('REF', 'exploration',
@@ -152,7 +152,7 @@ CHECKS = {
             'Generated files with watcher, env, env:PATTERN (wildcards, comma lists), socket and plugin sections in '
             'shuffled order, typed/boolean/signal/stream/rlimit/hook/free-form options and references in any option; '
             'every option value and type, every environment, the Watcher attributes and the per-watcher hook '
-            'ignore-failure flags must agree; parsing twice must be equal.',
+            'ignore-failure flags must agree; parsing twice must be equal. Signed priorities.',
             'Ambiguous classes (case-colliding names, [env] values referring to other [env] variables, typed options referring to '
             'env:NAME-only variables, repeated identical headers) are not generated; the __name__ marker in the '
             'watcher dict is not an option and is not compared.'),
@@ -162,7 +162,7 @@ CHECKS = {
             'Exhaustive over max_bytes 1..8 x backup_count 1..3 x all write-size sequences (length 4 quick / 5 '
             'thorough, every prefix checked), random beyond with pre-existing files, gaps, time_format, multi-line '
             'and non-ASCII payloads, newline placement under time_format, close/reopen, no-rotation streams, and '
-            'writes the operating system refuses (EFBIG for exactly one call).',
+            'writes the operating system refuses (EFBIG for exactly one call). Consecutive chunks from different pids on one stream.',
             'Size bound judged on ASCII payloads without time_format.'),
     'C06': ('SIM+REF+LIVE', 'exploration',
             'runtime monitoring: reply ledger per frame handed to the real Controller.handle_message (count, envelope, '
@@ -172,21 +172,21 @@ CHECKS = {
             'type-confused properties and operations that fail after the immediate-reply path; client calls against '
             'permutations of stale/foreign/id-less/duplicate/right replies and silence, with fresh mappings or one '
             'message object reused by the caller (and a stepped wall clock when the client uses one); a real '
-            'circusd answering requests from 10 bytes to 3 MiB exactly once each.',
+            'circusd answering requests from 10 bytes to 3 MiB exactly once each. LIVE: a whole-arbiter restart and the final quit, both with waiting, each get exactly one reply from a real circusd.',
             'Multi-frame envelopes are not judged; AsyncCircusClient has no timeout of its own.'),
     'C07': ('LIVE', 'exploration',
             'runtime monitoring of a real circusd under strace: socket inodes from /proc/<pid>/fd of daemon and '
             'workers, bind() calls from the strace record, connect() probes',
             'Real daemon with managed inet/unix/so_reuseport sockets and probe workers that dump argv and '
             'descriptors, over 6-10 worker generations driven by SIGKILL, restart, reload, incr, decr, reloadconfig '
-            '(unchanged file / edited watcher section) and periods in which process creation fails.',
+            '(unchanged file / edited watcher section) and periods in which process creation fails. stdin_socket watchers, also inetd-style with the same socket\'s descriptor number on the command line.',
             'so_reuseport sockets are per-worker by design; wall clock only ever makes a case inconclusive.'),
     'C08': ('LIVE', 'exploration',
             'runtime monitoring of a real circusd under strace: exit status, /proc children (pid,starttime), '
             'filesystem and connect() after quit / SIGTERM / SIGINT / SIGQUIT at chosen points of its life',
             'Quit request or termination signal when idle, the moment the pid file appears, during the paced start-up, '
             'during stop/restart with stubborn workers (short and 7 s grace), during a respawning periodic check; '
-            'pid-file start-up cases (live other pid, dead, empty, garbage, negative, zero, the daemon\'s own pid).',
+            'pid-file start-up cases (live other pid, dead, empty, garbage, negative, zero, the daemon\'s own pid). A second termination signal during a shutdown that lasts; an idle daemon with a check_delay of an hour; a daemon run by an unprivileged user whose pid file names a live process of another user.',
             'A verdict of "never exits" needs corroboration (process still there, signal seen by strace) after a wait '
             '>= 10x the configured timeouts; libzmq ipc files are not demanded.'),
     'C17': ('LIVE', 'exploration',
@@ -197,7 +197,7 @@ CHECKS = {
             'buffer) on both channels while a sibling watcher is restarted/reloaded/SIGKILLed for 25-120 generations; '
             'one writer closes a pipe early, one ends with a burst of exactly two read buffers, three exit by themselves '
             'while a helper child holds their pipes, the streams of one running writer are replaced; a heartbeat + '
-            'watchdog thread reports a blocked loop.',
+            'watchdog thread reports a blocked loop. A writer whose pipes get descriptor numbers above 1024; one stream object configured for both channels.',
             'Only workers that keep running are judged; the leak measure is the fd-count growth after generation 10.'),
 }
 
